@@ -38,7 +38,7 @@ def run(pid, tier, replay=None):
     r = vlib.run_harness([exe, out, sc.path("g"), "14"], timeout=1800)
     m = re.search(r"^SUMMARY (\{.*\})$", r.stdout or "", re.M)
     if r.returncode != 0 or not m:
-        if r.returncode in (97, 98, 99, -6, -11):
+        if r.returncode in (96, 97, 98, 99, -6, -11):
             ck.violation("crash", {"what": "sanitizer abort in the filter routines", "stderr": (r.stderr or "")[-1500:]})
             return ck.finish()
         raise Broken("harness failed rc=%s: %s" % (r.returncode, (r.stderr or "")[-1500:]))
